@@ -2,7 +2,7 @@
    Definitions only. *)
 From Coq Require Import List NArith ZArith Bool String.
 Import ListNotations.
-Require Import OJD.Base OJD.Lexer OJD.Json OJD.Schema OJD.Generated OJD.CreateJob OJD.Parse OJD.Validators OJD.Accept.
+Require Import OJD.Base OJD.Lexer OJD.Json OJD.Schema OJD.Generated OJD.FormatStr OJD.CreateJob OJD.Parse OJD.Validators OJD.Accept.
 Local Open Scope string_scope.
 
 (* value equality of model instances as pydantic defines it (self.dict() == other.dict()):
@@ -72,4 +72,50 @@ Section Export.
 
   Definition roundtrip_doc (root : string) (j : json) : outcome (json * bool) :=
     do v <- parse_any root j; Ok (roundtrip root v).
+
+  (* FormatString(s).resolve(symtab) *)
+  Definition fs_resolve (sigma : CreateJob.symtab) (s : str) : outcome str :=
+    match mk classify s with
+    | Ok f => FormatStr.resolve sigma f
+    | Raise e => Raise e
+    end.
+
+  (* create_job after preprocessing: instantiate, then build the target models.
+       Ok true   a Job is returned
+       Ok false  DecodeValidationError (a target model rejects its values, or a reference cannot be
+                 resolved: instantiate_model turns FormatStringError into a validation error)
+       Raise e   anything else would escape from create_job (KeyError for an unbound RawParam, ...) *)
+  (* every model instance of the tree is accepted by ITS OWN class (pydantic validates each target model
+     when instantiate_model constructs it, e.g. IntRangeListTaskParameterDefinition, not when the parent
+     is built): Ok true / Ok false, or Raise RuntimeError outside the structural model's domain *)
+  Fixpoint nodes_ok (fuel : nat) (v : mval) : outcome bool :=
+    match fuel with
+    | O => Raise RuntimeError
+    | S f =>
+      let all (l : list mval) : outcome bool :=
+        fold_left (fun (acc : outcome bool) x =>
+                     do a <- acc; if a then nodes_ok f x else Ok false) l (Ok true) in
+      match v with
+      | MList l => all l
+      | MDict l => all (map snd l)
+      | MModel c fs =>
+        do below <- all (map snd fs);
+        if below then
+          match parse_any c (export v) with
+          | Ok _ => Ok true
+          | Raise ValueError => Ok false
+          | Raise e => Raise e
+          end
+        else Ok false
+      | _ => Ok true
+      end
+    end.
+
+  Definition create_job_verdict (vals : list (str * str * str)) (template : mval) : outcome bool :=
+    let fuel := S (mval_depth template) in
+    match inst Generated.schema fs_resolve (symtab_of vals) fuel template with
+    | Ok job => nodes_ok (S (S fuel)) (coerce_job fuel job)
+    | Raise FormatStringError => Ok false
+    | Raise e => Raise e
+    end.
 End Export.
